@@ -547,6 +547,67 @@ func dbExec(ops []string) (dops []string, res []string) {
 			if r.db.State() != originium.StateClosed {
 				r.syncMarks()
 			}
+		case "inflight2":
+			// inflight2 <txn i> <txn j>: Commit of i is held right after it got its timestamp; meanwhile another goroutine
+			// commits j.  However the engine orders the two, afterwards every key both wrote reads as j's value (j's commit
+			// timestamp is the larger one) — also when a memtable rotation falls between the two applications.
+			i, _ := strconv.Atoi(t[1])
+			j, _ := strconv.Atoi(t[2])
+			if i >= len(txns) || j >= len(txns) || i == j || finished[i] || finished[j] {
+				continue
+			}
+			parked, resume := make(chan struct{}), make(chan struct{})
+			r.mu.Lock()
+			r.cur = i
+			r.commitLogged = false
+			r.pauseParked, r.pauseResume = parked, resume
+			r.mu.Unlock()
+			var ierr, jerr error
+			idone, jdone := make(chan struct{}), make(chan struct{})
+			go func() {
+				defer close(idone)
+				defer func() { _ = recover() }()
+				ierr = txns[i].Commit()
+			}()
+			inCommit := false
+			select {
+			case <-parked:
+				inCommit = true
+			case <-idone:
+			case <-time.After(20 * time.Second):
+				panic("HANG: Commit did not reach its timestamp within 20 s\n" + allStacks())
+			}
+			r.mu.Lock()
+			r.pauseParked, r.pauseResume = nil, nil
+			iLogged := r.commitLogged
+			if !inCommit && !iLogged {
+				r.log(fmt.Sprintf("commit %d", i), errName(ierr))
+			}
+			r.cur = j
+			r.commitLogged = false
+			r.mu.Unlock()
+			go func() {
+				defer close(jdone)
+				defer func() { _ = recover() }()
+				jerr = txns[j].Commit()
+			}()
+			if inCommit {
+				select {
+				case <-jdone:
+				case <-time.After(40 * time.Millisecond):
+				}
+				close(resume)
+			}
+			r.call(func() { <-idone; <-jdone })
+			finished[i], finished[j] = true, true
+			r.mu.Lock()
+			if !r.commitLogged {
+				r.log(fmt.Sprintf("commit %d", j), errName(jerr))
+			}
+			r.mu.Unlock()
+			if r.db.State() != originium.StateClosed {
+				r.syncMarks()
+			}
 		case "upd":
 			// upd <ok|err|panic> <key> <value>: DB.Update with a closure that sets one key and then returns nil, returns an
 			// error, or panics; in the model: begin, set, then commit (ok) or discard (err, panic: the deferred Discard)
@@ -792,6 +853,33 @@ func dbGen(r *rand.Rand, n int, length int, withReopen bool) []Case {
 						tags["oversize"] = true
 					}
 					ops = append(ops, fmt.Sprintf("set %d %s %s", t.idx, hxs(k), hx(v)))
+				}
+			case (x == 80 || x == 56 || x == 57) && len(ot) > 1:
+				// two commits at once: the first held at its timestamp while the second one runs; both write a common key
+				var ups []*tx
+				for _, t := range ot {
+					if t.update {
+						ups = append(ups, t)
+					}
+				}
+				if len(ups) >= 2 {
+					a, b := ups[r.Intn(len(ups))], ups[r.Intn(len(ups))]
+					if a != b {
+						k := pickKey(r, nk)
+						ops = append(ops, fmt.Sprintf("set %d %s %s", a.idx, hxs(k), hxs(fmt.Sprintf("first%d", i))),
+							fmt.Sprintf("set %d %s %s", b.idx, hxs(k), hx(bytes.Repeat([]byte{'s'}, 30+r.Intn(200)))),
+							fmt.Sprintf("inflight2 %d %d", a.idx, b.idx))
+						a.open, b.open = false, false
+						for q := 0; q < 2; q++ {
+							rd := begin(false)
+							ops = append(ops, fmt.Sprintf("get %d %s", rd.idx, hxs(k)), fmt.Sprintf("discard %d", rd.idx))
+							rd.open = false
+							if q == 0 {
+								ops = append(ops, "drain")
+							}
+						}
+						tags["two-commits-at-once"] = true
+					}
 				}
 			case x < 70 && len(ot) > 0:
 				t := ot[r.Intn(len(ot))]
